@@ -24,6 +24,9 @@ type Case struct {
 	// Via: "option" (ApplyOptions.AccumulatedCopySizeLimit), "v5-default"
 	// (package variable + Apply) or "legacy-default" (root package).
 	Via string `json:"via"`
+	// PkgDefault: value of the package variable AccumulatedCopySizeLimit while an
+	// "option" case runs (the per-call option must win, a per-call 0 must disable the check).
+	PkgDefault int64 `json:"package_default,omitempty"`
 }
 
 func drawVia(via string) func(t *rapid.T) Case {
@@ -67,7 +70,11 @@ func drawVia(via string) func(t *rapid.T) Case {
 		} else if !gen.OneIn(t, 3, "zero2") {
 			limit = int64(rapid.IntRange(1, 60).Draw(t, "lim"))
 		}
-		return Case{Doc: doc.Text(esc), Patch: ref.OpsText(ops, esc), Esc: esc, Limit: limit, Via: via}
+		c := Case{Doc: doc.Text(esc), Patch: ref.OpsText(ops, esc), Esc: esc, Limit: limit, Via: via}
+		if via == "option" && gen.OneIn(t, 3, "pkgdef") {
+			c.PkgDefault = rapid.SampledFrom([]int64{1, 2, 5, 1000}).Draw(t, "pkgdefv")
+		}
+		return c
 	}
 }
 
@@ -141,6 +148,12 @@ func check(c Case) ev.Verdict {
 				return ev.Excluded("operation outside the legacy package's claims")
 			}
 		}
+	}
+	if c.Via == "option" && c.PkgDefault != 0 {
+		// the package default is in force for every library call of this case; the per-call option must win
+		old := jp.AccumulatedCopySizeLimit
+		jp.AccumulatedCopySizeLimit = c.PkgDefault
+		defer func() { jp.AccumulatedCopySizeLimit = old }()
 	}
 	ro := ref.Opts{Neg: true, Esc: c.Esc, Limit: c.Limit}
 	want := ref.Apply(doc, ops, ro)
